@@ -59,11 +59,17 @@ def gen(seed, tier="quick"):
     # faulty sub-batch (kept separate: ~25 %)
     if r.random() < 0.25 and scn["entry"] != "Policy.noretry":
         call = scn["calls"][0]
-        kind = r.choice(["strategy", "classifier", "sleeper", "base", "nested_ree"])
+        kind = r.choice(["strategy", "classifier", "sleeper", "base", "nested_ree", "attempt_start"])
         n = max(scn["cfg"]["max_attempts"], 1)
         if kind in ("strategy", "classifier", "sleeper"):
             call["faults"] = [{"site": kind, "at": r.randrange(0, n), "exc": r.choice(["ValueError", "RuntimeError", "KeyError", "Custom", "ZeroDivisionError"]),
                                "kind": "callback_raise"}]
+        elif kind == "attempt_start":
+            # a raising on_attempt_start hook (the statement is silent on whether it propagates): if execute() does
+            # return an outcome, that outcome is still held to R2/R3 (attempts = invocations, final failure ...)
+            call["faults"] = [{"site": "attempt_start", "at": r.randrange(0, n), "exc": r.choice(["ValueError", "RuntimeError", "KeyError"]), "kind": "callback_raise"}]
+            if scn["place"].get("att_hooks", "none") == "none":
+                scn["place"]["att_hooks"] = r.choice(["policy", "call", "both"])
         elif kind == "base":
             i = r.randrange(0, min(n, len(call["attempts"])))
             call["attempts"][i] = {"kind": "base", "exc": r.choice(["KeyboardInterrupt", "SystemExit", "CancelledError"]), "dur": 0}
@@ -93,6 +99,8 @@ def oracle(scn, trace):
                 ok_raise = True
             elif injected and exc["type"] in (injected[-1]["exc"], "CustomHookError" if injected[-1]["exc"] == "Custom" else None):
                 ok_raise = True
+            elif any(e["ev"] == "FAULT" and e["site"] == "attempt_start" and e["obj"] == exc.get("obj") for e in cf.events):
+                ok_raise = True      # the injected hook error itself (not constrained by the statement)
             if not ok_raise:
                 out.append(V("R1", f"execute() raised {exc['type']}", {"call": cid, "exc": exc, "entry": ent,
                                                                         "last_attempt": None if last is None else (last.kind, last.fclass)}))
